@@ -8,14 +8,22 @@ use std::collections::VecDeque;
 use std::sync::Arc;
 
 verus! {
-broadcast use effectlog::group_effectlog;
+broadcast use {effectlog::group_effectlog, keycount::group_occ};
 
 pub type WorkerId = usize;
-/// stand-ins for the user-implemented traits; `clone` of a key yields an equal key (lawful Clone: ASSUMED of user keys)
-pub trait JobKey: Sized {
-    fn clone(&self) -> (r: Self) ensures r == *self;
+} // verus!
+pub mod jk {
+    use super::*;
+    verus! {
+    /// stand-ins for the user-implemented traits; `clone` of a key yields an equal key (lawful Clone: ASSUMED of user keys)
+    pub trait JobKey: Sized {
+        fn clone(&self) -> (r: Self) ensures r == *self;
+    }
+    pub trait Message: Sized {}
+    }
 }
-pub trait Message: Sized {}
+pub use jk::*;
+verus! {
 
 // ------------------------------------------------------------------ opaque stand-ins (R9)
 #[verifier::external_body] pub struct JoinHandle { _p: u8 }
@@ -45,6 +53,13 @@ impl<K> View for CurrJobs<K> { type V = Map<K, JobOptions>; uninterp spec fn vie
 /// HashMap<TKey, usize> stand-in: only touched by the two TRUSTED helpers track/untrack_pending_key
 #[verifier::external_body] #[verifier::reject_recursive_types(K)]
 pub struct KeyCounts<K> { _p: core::marker::PhantomData<K> }
+impl<K> View for KeyCounts<K> { type V = Map<K, nat>; uninterp spec fn view(&self) -> Map<K, nat>; }
+impl<K> KeyCounts<K> {
+    #[verifier::external_body]
+    pub fn clear(&mut self) ensures final(self)@ == Map::<K, nat>::empty() { unimplemented!() }
+    #[verifier::external_body]
+    pub fn contains_key(&self, k: &K) -> (r: bool) ensures r == self@.contains_key(*k) { unimplemented!() }
+}
 
 impl<K> CurrJobs<K> {
     #[verifier::external_body]
@@ -64,8 +79,17 @@ impl<K> CurrJobs<K> {
     pub fn is_empty(&self) -> (r: bool) ensures r == (self@.dom() =~= Set::<K>::empty()) { unimplemented!() }
     #[verifier::external_body]
     pub fn len(&self) -> (r: usize) ensures r == self@.dom().len() { unimplemented!() }
+    /// A-std: each key of the map exactly once
     #[verifier::external_body]
-    pub fn keys(&self) -> (r: Vec<&K>) ensures forall|i: int| 0 <= i < r@.len() ==> self@.contains_key(*#[trigger] r@[i]) { unimplemented!() }
+    pub fn keys(&self) -> (r: Vec<&K>)
+        ensures
+            forall|i: int| 0 <= i < r@.len() ==> self@.contains_key(*#[trigger] r@[i]),
+            r@.len() == self@.dom().len(),
+            forall|i: int, j: int| 0 <= i < j < r@.len() ==> *r@[i] != *r@[j],
+            forall|k: K| self@.contains_key(k) ==> exists|i: int| 0 <= i < r@.len() && *#[trigger] r@[i] == k,
+    { unimplemented!() }
+    #[verifier::external_body]
+    pub fn clear(&mut self) ensures final(self)@ == Map::<K, JobOptions>::empty() { unimplemented!() }
 }
 /// std::mem::take on the in-flight map (pathmap): hands the old map out and leaves an empty one
 #[verifier::external_body]
@@ -110,7 +134,71 @@ pub mod vocab {
 pub use vocab::*;
 // @include ../_common/effectlog.rs
 
+pub mod keycount {
+    use super::*;
+    verus! {
+    /// how many queued jobs carry key `k`
+    pub open spec fn occ<K: JobKey, M: Message>(q: Seq<Job<K, M>>, k: K) -> nat
+        decreases q.len(),
+    {
+        if q.len() == 0 { 0 } else { occ(q.drop_last(), k) + (if q.last().key == k { 1nat } else { 0nat }) }
+    }
+    pub broadcast proof fn lemma_occ_push<K: JobKey, M: Message>(q: Seq<Job<K, M>>, j: Job<K, M>, k: K)
+        ensures #[trigger] occ(q.push(j), k) == occ(q, k) + (if j.key == k { 1nat } else { 0nat }),
+    {
+        assert(q.push(j).drop_last() =~= q);
+    }
+    pub broadcast proof fn lemma_occ_pop_front<K: JobKey, M: Message>(q: Seq<Job<K, M>>, k: K)
+        requires q.len() > 0,
+        ensures #[trigger] occ(q.subrange(1, q.len() as int), k) == occ(q, k) - (if q[0].key == k { 1int } else { 0int }),
+        decreases q.len(),
+    {
+        if q.len() == 1 {
+            assert(q.subrange(1, 1) =~= Seq::<Job<K, M>>::empty());
+            assert(q.drop_last() =~= Seq::<Job<K, M>>::empty());
+        } else {
+            let r = q.drop_last();
+            lemma_occ_pop_front(r, k);
+            assert(q.subrange(1, q.len() as int).drop_last() =~= r.subrange(1, r.len() as int));
+            assert(q.subrange(1, q.len() as int).last() == q.last());
+            assert(r[0] == q[0]);
+        }
+    }
+    pub broadcast proof fn lemma_occ_push_front<K: JobKey, M: Message>(q: Seq<Job<K, M>>, j: Job<K, M>, k: K)
+        ensures #[trigger] occ(seq![j] + q, k) == occ(q, k) + (if j.key == k { 1nat } else { 0nat }),
+        decreases q.len(),
+    {
+        if q.len() == 0 {
+            assert(seq![j] + q =~= seq![j]);
+            assert(seq![j].drop_last() =~= Seq::<Job<K, M>>::empty());
+            assert(seq![j].last() == j);
+            reveal_with_fuel(occ, 2);
+        } else {
+            lemma_occ_push_front(q.drop_last(), j, k);
+            assert((seq![j] + q).drop_last() =~= seq![j] + q.drop_last());
+            assert((seq![j] + q).last() == q.last());
+        }
+    }
+    pub broadcast proof fn lemma_occ_empty<K: JobKey, M: Message>(q: Seq<Job<K, M>>, k: K)
+        requires q.len() == 0,
+        ensures #[trigger] occ(q, k) == 0,
+    {}
+    pub broadcast group group_occ { lemma_occ_push, lemma_occ_pop_front, lemma_occ_push_front, lemma_occ_empty }
+    }
+}
+pub use keycount::*;
+
 verus! {
+/// pending-key bookkeeping (C14 key affinity across resize/replacement relies on it): the counter of a key equals the
+/// number of queued jobs with that key plus one if a job with that key is in flight.  `excess` is the difference.
+pub open spec fn kc<K>(m: Map<K, nat>, k: K) -> nat { if m.contains_key(k) { m[k] } else { 0 } }
+pub open spec fn inflight<K>(c: Map<K, JobOptions>, k: K) -> nat { if c.contains_key(k) { 1 } else { 0 } }
+#[verifier::inline]
+pub open spec fn excess<K: JobKey, M: Message>(w: WorkerProperties<K, M>, k: K) -> int {
+    kc(w.pending_key_counts@, k) - occ(w.message_queue@, k) - inflight(w.curr_jobs@, k)
+}
+pub open spec fn balanced<K: JobKey, M: Message>(w: WorkerProperties<K, M>) -> bool { forall|k: K| #![trigger kc(w.pending_key_counts@, k)] excess(w, k) == 0 }
+pub open spec fn nonneg<K: JobKey, M: Message>(w: WorkerProperties<K, M>) -> bool { forall|k: K| #![trigger kc(w.pending_key_counts@, k)] excess(w, k) >= 0 }
 pub open spec fn jid<K: JobKey, M: Message>(j: Job<K, M>) -> int { jid_of(j.key, j.msg) }
 pub open spec fn expired<K: JobKey, M: Message>(j: Job<K, M>) -> bool { opts_expired(j.options) }
 pub open spec fn wm_jid<K: JobKey, M: Message>(m: WorkerMessage<K, M>) -> int {
@@ -205,7 +293,7 @@ impl<K: JobKey, M: Message> DiscardHandlerObj<K, M> {
         with Tracked(log): Tracked<&mut EffectLog>
         ensures
             final(log).s == old(log).s.push(Effect::Discard(reason, jid(*old(job)))),
-            jid(*final(job)) == jid(*old(job)), final(job).options == old(job).options, final(job).accepted == old(job).accepted,
+            jid(*final(job)) == jid(*old(job)), final(job).options == old(job).options, final(job).accepted == old(job).accepted, final(job).key == old(job).key,
     )]
     pub fn discard(&self, reason: DiscardReason, job: &mut Job<K, M>) { unimplemented!() }
 }
@@ -238,11 +326,13 @@ impl<TKey: JobKey, TMsg: Message> WorkerProperties<TKey, TMsg> {
     #[verus_verify(external_body)]
     #[verus_spec(ensures
         final(self).message_queue == old(self).message_queue, final(self).curr_jobs == old(self).curr_jobs,
-        final(self).heartbeat == old(self).heartbeat, same_config(*old(self), *final(self)))]
+        final(self).heartbeat == old(self).heartbeat, same_config(*old(self), *final(self)),
+        forall|k: TKey| #[trigger] kc(final(self).pending_key_counts@, k) == kc(old(self).pending_key_counts@, k) + (if k == *key { 1nat } else { 0nat }))]
     pub fn track_pending_key(&mut self, key: &TKey) { unimplemented!() }
     #[verus_verify(external_body)]
     #[verus_spec(ensures
         final(self).message_queue == old(self).message_queue, final(self).curr_jobs == old(self).curr_jobs,
-        final(self).heartbeat == old(self).heartbeat, same_config(*old(self), *final(self)))]
+        final(self).heartbeat == old(self).heartbeat, same_config(*old(self), *final(self)),
+        forall|k: TKey| #[trigger] kc(final(self).pending_key_counts@, k) == (if k == *key && kc(old(self).pending_key_counts@, k) >= 1 { (kc(old(self).pending_key_counts@, k) - 1) as nat } else { kc(old(self).pending_key_counts@, k) }))]
     pub fn untrack_pending_key(&mut self, key: &TKey) { unimplemented!() }
 }
